@@ -975,6 +975,9 @@ def run(ctx) -> None:
     m = pmod(FMT)
     T = _tables(m)
     docs = documented_tokens()
+    from . import C15, C18
+    ctx.step(C18._ordinalize_tabulate, ctx)   # Do / Mo / Qo / DDDo / wo render through Locale.ordinalize: every locale x every number a field can take
+    ctx.step(C15._getters_tabulate, ctx)      # the tokens render the calendar getters of the value (day_of_year, week_of_year, quarter, day_of_week, ...): against the standard library
     ctx.step(_formatter_tabulate, ctx, ctx.tier == "thorough")       # the value rules first: what they establish is no longer a question of form
     lang = ctx.guard("TABLES.language", "Formatter._TOKENS", token_language, m.rel)
     if lang is not None:
